@@ -32,7 +32,8 @@ def run_enum_check(spec, args):
     sig_fn = spec["signature"]
     if args.replay:
         rep = json.load(open(args.replay))
-        rc, recs, _, err = run_harness([binary, "--case"] + [str(x) for x in rep["case"]])
+        b = spec["binary_for_case"](rep["case"]) if spec.get("binary_for_case") else binary
+        rc, recs, _, err = run_harness([b, "--case"] + [str(x) for x in rep["case"]])
         cls = recs[0]["cls"] if recs else ("crash" if rc else "no-output")
         log("replay: class=%s %s" % (cls, json.dumps(recs[0]) if recs else err[-400:]))
         if cls not in ("ok", "sample"):
@@ -43,7 +44,7 @@ def run_enum_check(spec, args):
     shards = spec["shards"][args.tier]
     import concurrent.futures
     with concurrent.futures.ThreadPoolExecutor(max_workers=NPROC) as ex:
-        results = list(ex.map(lambda a: run_harness([binary] + a + ["--seed", str(args.seed)]), shards))
+        results = list(ex.map(lambda a: run_harness(([binary] if binary else []) + a + ["--seed", str(args.seed)]), shards))
     recs, summaries = [], []
     for (rc, r, s, err), a in zip(results, shards):
         if rc != 0 or s is None:
@@ -75,7 +76,8 @@ def run_enum_check(spec, args):
         path = os.path.join(rd, "%s_%s.json" % (cls, sha(sig)[:8]))
         json.dump({"property": pid, "class": cls, "signature": sig, "case": rec.get("case", []), "record": rec}, open(path, "w"), indent=1)
         if rec.get("case"):
-            rc, rr, _, err = run_harness([binary, "--case"] + [str(x) for x in rec["case"]])
+            b = spec["binary_for_case"](rec["case"]) if spec.get("binary_for_case") else binary
+            rc, rr, _, err = run_harness([b, "--case"] + [str(x) for x in rec["case"]])
             c2 = rr[0]["cls"] if rr else "crash"
             if c2 != cls:
                 log("MACHINERY ERROR: case %s gave %s in the batch and %s alone" % (rec["case"], cls, c2))
